@@ -32,6 +32,10 @@ def parseStmt : List String → Option Stmt
   | ["setw", l, v, w] => do pure (.setw (← parseLbl l) (← parseQ v) (← parseQ w))
   | ["del", l] => (parseLbl l).map .del
   | ["merge", l, k] => do pure (.merge (← parseLbl l) (← k.toNat?))
+  | ["setrep", l, ds] => do
+    let l ← parseLbl l
+    let ds ← (ds.splitOn ",").mapM parseQ
+    pure (.setrep l ds)
   | ["refused", "0"] => some .refused
   | ["refused", "1"] => some .refused
   | _ => none
